@@ -430,7 +430,8 @@ def run(root, pid, tier, seed, replay):
             'evaluations': ctx['evaluations'], 'distinct_nontrivial': ctx['nontrivial'],
             'rule': P.get('rule', ''), 'samples': ctx['samples'][:5],
             'distribution': ctx['distribution'], 'notes': ctx['notes'],
-            'known_findings_hit': [h['key'] for h, _ in kn_hits],
+            'known_findings_hit': sorted(set(h['key'] for h, _ in kn_hits)),
+            'known_findings_hit_counts': {k: sum(1 for h, _ in kn_hits if h['key'] == k) for k in set(h['key'] for h, _ in kn_hits)},
         },
         'assumptions': P.get('assumes', []),
         'wall_s': round(time.time() - t0, 2),
@@ -441,7 +442,7 @@ def run(root, pid, tier, seed, replay):
     if not (replay or replay_key is not None):   # a replay does not rewrite the evidence of the full run
         with open(os.path.join(root, 'evidence', pid + '.json'), 'w') as f:
             json.dump(ev, f, indent=1, default=str)
-    print('%s %s seed=%d: %d evaluations, %d distinct non-trivial, %d/%d theorems, %d violation(s), %d known, %.1fs'
+    print('%s %s seed=%d: %d evaluations, %d distinct non-trivial, %d/%d theorems, %d violation(s), %d known (%d cases), %.1fs'
           % (pid, tier, seed, ctx['evaluations'], ctx['nontrivial'], len(pr['discharged']), len(pr['obligations']),
-             len(out_viol), len(seenk), time.time() - t0))
+             len(out_viol), len(seenk), len(kn_hits), time.time() - t0))
     return rc
